@@ -28,6 +28,7 @@ EXPLANATION = (
     "(D3) is decided by path conditions on `is_constant` (a value not governed by that test serves both cases and is a violation); (D6) both sampling regimes number qubits alike (rule shared with C04-D1), which 'regardless of shot count' needs."
     ' Round 4: (D7) the simulated state the exact values are computed from is threaded as decided by C01-D1.'
     ' Round 5: (D8) no unsound cache; (D9) the exact values are the quadratic form of C09-D4; is_constant looks at the factors only.'
+    ' Round 6: the sampling rule shared with C04 also follows bit-by-bit decoding of drawn indices (D6).'
 )
 RULE_TEXT = "instances = partition appends, unpack slots, single-binding obligations per partition name, element-wise producers, zips, allocation, constant/zero-shot branches, per-task field provenance; distinct by (rule, construct)"
 ASSUMPTIONS = [
